@@ -650,7 +650,20 @@ def binScalar (op : String) (a b : DV) : Res DV := do
           let r := x ^ y.toNat
           if fitsI64 r then pure (vint r) else throw (.unmodelled "** overflow")
         else throw (.unmodelled "** negative exponent")
-      | _, _ => throw (.unmodelled "** on non-ints")
+      | _, _ =>
+        match Disp.binaryTable "bifs.pow_dispositions" with
+        | none => throw (.unmodelled "** on non-ints")
+        | some t =>
+          match Disp.cell2 t a.toVal.kind b.toVal.kind with
+          | none => throw (.unmodelled "** on non-ints")
+          | some k =>
+            match (Gen.kernelSig k).ret with
+            | .absent => pure absent
+            | .in1 => pure a
+            | .in2 => pure b
+            | .void => pure (.s .void)
+            | .error => pure error
+            | _ => throw (.unmodelled "** on non-ints")
     else throw (.unmodelled ("operator " ++ op))
 
 def unTable : String → Option (List Gen.K)
@@ -1182,6 +1195,9 @@ mutual
       | "any", [.arr xs, .fn f] => anyEvery p fuel true f xs
       | "every", [.arr xs, .fn f] => anyEvery p fuel false f xs
       | "sort", [.arr xs, .fn f] => sortFn p fuel f xs
+      | _, a :: .fn _ :: _ =>
+        -- the first argument is neither a map nor an array: an error value
+        if a.isColl then failM (.unmodelled ("higher-order " ++ name)) else pure error
       | _, _ => failM (.unmodelled ("higher-order " ++ name))
 
   /-- `any` stops at the first true, `every` at the first false; what follows is not evaluated. -/
@@ -1434,7 +1450,13 @@ mutual
             let st ← liftR (s.stack.assign n nv)
             set { s with stack := st }
           | none => pure ()
-      | .posName _ | .posVal _ => failM (.unmodelled "unset of a positional name")
+      | .posName e | .posVal e => do
+        match ← eval p fuel e, path with
+        | .s (.int i), [] => do
+          let s ← get
+          if s.hasRec = true ∧ 1 ≤ i ∧ i ≤ s.cur.length then set { s with cur := s.cur.eraseIdx (i.toNat - 1) } else pure ()
+        | .s (.int _), _ => failM (.unmodelled "indexed unset of a positional name")
+        | _, _ => failM (.unmodelled "unset of a positional name by a non-int")
 
   def unsetList (p : Prog) : Nat → List LHS → M Unit
     | 0, _ => failM .fuel
